@@ -260,6 +260,9 @@ func main() {
 			case r := <-done:
 				out.WriteString(r)
 				out.WriteByte('\n')
+				if strings.HasPrefix(line, "conc") {
+					out.Flush() // a runtime crash in a later case must not swallow this result
+				}
 			case <-time.After(*flagTimeout):
 				out.WriteString("TIMEOUT\n")
 				out.Flush()
